@@ -96,7 +96,7 @@ class Model(HoloPyObject):
 
     def _iteritems(self):
         keys = ['_dummy_scatterer', 'theory', '_parameters',
-                '_parameter_names', '_maps']
+                '_parameter_names', '_maps', 'constraints']
         for key in keys:
             item = getattr(self, key)
             if isinstance(item, np.ndarray) and item.ndim == 1:
@@ -113,6 +113,8 @@ class Model(HoloPyObject):
         scatterer_parameters = read_map(maps['scatterer'], parameters)
         scatterer = dummy_scatterer.from_parameters(scatterer_parameters)
         kwargs = {'scatterer': scatterer, 'theory': fields['theory']}
+        if 'constraints' in fields:
+            kwargs['constraints'] = fields['constraints']
         for key in ['optics', 'model', 'theory']:
             kwargs.update(read_map(maps[key], parameters))
         model = cls(**kwargs)
